@@ -2476,10 +2476,14 @@ class RedunBackendDb(RedunBackend):
         for pair in call_task_pairs:
             call_node2task_hashes[pair.call_hash].add(pair.task_hash)
 
+        # A completely recorded CallNode always has at least its own task as a subtree task.
+        # A CallNode without any recorded subtree tasks (e.g. its recording was interrupted, or
+        # it was imported from another repo) cannot be trusted for ultimate reduction.
         current_call_nodes = [
             call_node
             for call_node in call_nodes
-            if call_node2task_hashes[call_node.call_hash] <= scheduler_task_hashes
+            if call_node2task_hashes[call_node.call_hash]
+            and call_node2task_hashes[call_node.call_hash] <= scheduler_task_hashes
         ]
 
         if current_call_nodes:
